@@ -267,13 +267,17 @@ func c14FaultSweepM(kind string, modes []bool) c14Body {
 			}
 			log.WriteByte(';')
 		}
-		for k := 0; k < 14; k++ {
+		for k := 0; k < 42; k++ {
+			if kind != "xzW" && k >= 14 {
+				break
+			}
 			for _, forever := range modes {
-				sink := &sweepSink{k: k, forever: forever, point: point}
+				sink := &sweepSink{k: k / map[bool]int{true: 3, false: 1}[kind == "xzW"], forever: forever, point: point}
 				core.Guard(func() {
 					switch kind {
 					case "xzW":
-						w, err := xz.WriterConfig{DictCap: 4096, BlockSize: 50, CheckSum: xz.CRC32}.NewWriter(sink)
+						// the check type rotates with k: CRC32, CRC64, SHA-256
+						w, err := xz.WriterConfig{DictCap: 4096, BlockSize: 50, CheckSum: []byte{xz.CRC32, xz.CRC64, xz.SHA256}[k%3]}.NewWriter(sink)
 						if err != nil {
 							rec(err)
 							return
@@ -420,6 +424,8 @@ func c14Scenarios() []c14Scn {
 		// an error-path history (writers on sinks failing at every position) followed, in the same
 		// thread, by a CRC32 writer with several blocks, next to another such writer
 		{"sweep(xzW) then xzW(CRC32 blocks)|xzW(CRC32 blocks)", []c14Body{c14Seq(c14FaultSweepM("xzW", []bool{true}), c14XZWriter(xz.WriterConfig{DictCap: 4096, BlockSize: 40, CheckSum: xz.CRC32}, t[:130])), c14XZWriter(xz.WriterConfig{DictCap: 4096, BlockSize: 40, CheckSum: xz.CRC32}, t[20:140])}},
+		{"sweep(xzW) then xzW(CRC64 blocks)|xzW(CRC64 blocks)", []c14Body{c14Seq(c14FaultSweepM("xzW", []bool{true}), c14XZWriter(xz.WriterConfig{DictCap: 4096, BlockSize: 40}, t[:130])), c14XZWriter(xz.WriterConfig{DictCap: 4096, BlockSize: 40}, t[20:140])}},
+		{"sweep(xzW) then xzW(SHA-256 blocks)|xzR(SHA-256)", []c14Body{c14Seq(c14FaultSweepM("xzW", []bool{false}), c14XZWriter(xz.WriterConfig{DictCap: 4096, BlockSize: 40, CheckSum: xz.SHA256}, t[:130])), c14XZReader(stream2)}},
 		// two classic readers whose headers differ in every field (properties, dictionary size, size)
 		{"lzmaR|lzmaR different headers", []c14Body{c14LZMAReader(mustLibLZMA(LZCfg{DictCap: 4096}, t[:60])), c14LZMAReader(mustLibLZMA(LZCfg{Props: true, LC: 0, LP: 2, PB: 1, DictCap: 1 << 16, SizeInHeader: true, Size: 50}, t[30:80]))}},
 		{"lzmaW|lzmaW same props (bufio)", []c14Body{c14LZMAWriter(lzma.WriterConfig{DictCap: 4096}, t[:90], false), c14LZMAWriter(lzma.WriterConfig{DictCap: 4096}, t[10:100], false)}},
